@@ -30,7 +30,10 @@ def vocabulary(kw):
 
 def plan(tier, seed):
     nseeds = 16 if tier == "quick" else 320
-    return [{"seed": seed, "chunk": i, "thorough": tier != "quick"} for i in range(nseeds)]
+    specs = [{"seed": seed, "chunk": i, "thorough": tier != "quick"} for i in range(nseeds)]
+    # sources that need 1021, 1022, 1023 applications of the built-in sugar: all below the documented budget of 1024 passes
+    specs += [{"seed": seed, "chunk": 9000 + i, "thorough": tier != "quick", "edge": 1021 + i} for i in range(3)]
+    return specs
 
 
 def redefinition_seed(r):
@@ -120,6 +123,11 @@ def work(spec):
     vocab = vocabulary(kw)
     toks = seed_program(r)
     seqs = neighbours(toks, r, vocab, spec["thorough"])
+    if "edge" in spec:
+        n = spec["edge"]
+        toks = " ;\n".join("v%d := v%d %s %d" % (i % 7, (i + 1) % 7, "+-"[i % 2], i % 4) for i in range(n)).split(" ")
+        toks = [t for w in toks for t in ([w] if "\n" not in w else [w.replace("\n", "")])]
+        seqs = [toks, toks + [";", "z", ":=", "v1"], toks[:-3] + ["v1"], toks + [";"]]
     seen = set()
     items = []
     seed_text = " ".join(toks)
